@@ -2691,7 +2691,7 @@ func (b *IPRouteBody) serialize(version uint8, software Software) ([]byte, error
 	var buf []byte
 	numNexthop := len(b.Nexthops)
 
-	bufInitSize := 12 // type(1)+instance(2)+flags(4)+message(4)+safi(1), frr7.4&newer
+	bufInitSize := 12 // type(1)+instance(2)+flags(4)+message(4)+safi(1), frr7.5&newer
 	switch version {
 	case 2, 3:
 		bufInitSize = 5
@@ -2700,7 +2700,7 @@ func (b *IPRouteBody) serialize(version uint8, software Software) ([]byte, error
 	case 5:
 		bufInitSize = 9 // type(1)+instance(2)+flags(4)+message(1)+safi(1)
 	case 6:
-		if software.name == "frr" && software.version < 7.4 { // frr6, 7, 7.2, 7.3
+		if software.name == "frr" && software.version < 7.5 { // frr6, 7, 7.2, 7.3, 7.4
 			bufInitSize = 9 // type(1)+instance(2)+flags(4)+message(1)+safi(1)
 		}
 	}
